@@ -1,5 +1,7 @@
 import OtelVerif.Common.Line
 import OtelVerif.Model.C12
+import OtelVerif.Model.C12Append
+import OtelVerif.Model.C12Loc
 /-! driver for C12: model `c12-resolve` -/
 open OtelVerif OtelVerif.Line OtelVerif.C12
 
@@ -130,6 +132,7 @@ def parseToks (t : String) : Option (List Tok) :=
 
 structure St where
   mode : Mode := .fixed
+  gate : Bool := false         -- confmap.enableMergeAppendOption
   defaultScheme : Option Str := none
   schemes : List Str := []
   provs : List ((Str × Str) × Retrieved) := []
@@ -295,7 +298,7 @@ def checkLeafPaths (s : St) (res : KVs) : Option String :=
   | some ms =>
     if !ms.all (fun m => uniqueKeys (.map m)) then none else
     let env := s.env
-    (flatten [] (mergeSources ms)).findSome? (fun (p, v) =>
+    (flatten [] (mergeSourcesGate s.gate ms)).findSome? (fun (p, v) =>
       match resolveValue env v with
       | .error _ => none
       | .ok v' =>
@@ -339,7 +342,7 @@ def checkRetrieved (s : St) : Option String :=
     let provStrs := s.provs.flatMap (fun e => valStrings e.2.raw ++ (match e.2.strRep with | some r => [r] | none => []))
     let srcStrs := s.srcs.flatMap valStrings
     if !(provStrs ++ srcStrs).all simpleRefs then none else
-    let alive := ((flatten [] (mergeSources ms)).flatMap (fun l => valStrings l.2) ++ provStrs).flatMap (refsOf env)
+    let alive := ((flatten [] (mergeSourcesGate s.gate ms)).flatMap (fun l => valStrings l.2) ++ provStrs).flatMap (refsOf env)
     match s.retrieved.find? (fun u => !alive.contains u) with
     | some (sc, nm) => some s!"sig=C12/merge/overridden-reference-still-looked-up retrieved={hexStr sc}:{hexStr nm}"
     | none => none
@@ -352,7 +355,7 @@ def checkMergeError (s : St) : Option String :=
   | none => none
   | some ms =>
     let env := s.env
-    if (flatten [] (mergeSources ms)).all (fun l => match resolveValue env l.2 with | .ok _ => true | .error _ => false) then
+    if (flatten [] (mergeSourcesGate s.gate ms)).all (fun l => match resolveValue env l.2 with | .ok _ => true | .error _ => false) then
       some "sig=C12/merge/overridden-reference-still-looked-up resolve-failed-though-every-merged-value-resolves"
     else none
 
@@ -364,7 +367,7 @@ def dollarNameLeaf (s : St) : Option Str :=
   | none => none
   | some ms =>
     let env := s.env
-    (flatten [] (mergeSources ms)).findSome? (fun l =>
+    (flatten [] (mergeSourcesGate s.gate ms)).findSome? (fun l =>
       match l.2 with
       | .str str =>
         match findURI env.mode env.defaultScheme.isSome str with
@@ -417,6 +420,7 @@ def handler : Handler St where
         let sr := (kv rest "str").bind (fun h => if h = "-" then some [] else unhexStr h.toList)
         ({ s with provs := s.provs ++ [((sc, nm), { raw := v, strRep := sr })] }, [])
       | _, _, _ => (s, ["obs bad-op"])
+    | ["gate", g] => ({ s with gate := g == "1" }, if g == "1" || g == "0" then [] else ["obs bad-op"])
     | ["src", v] =>
       match parseValTok v with
       | some v => ({ s with srcs := v :: s.srcs }, [])
@@ -436,7 +440,7 @@ def handler : Handler St where
     | "resolvex" :: rest =>
       -- external-package harness (real envprovider): only what the public API shows
       let hint := (kv rest "hint").getD "-"
-      match resolve s.env s.srcs.reverse with
+      match resolveGate s.gate s.env s.srcs.reverse with
       | .error es =>
         let names := es.map showErr
         let pick := if names.contains hint then hint else names.headD "?"
@@ -448,7 +452,7 @@ def handler : Handler St where
     | "resolve" :: rest =>
       let hint := (kv rest "hint").getD "-"
       let s := { s with tokOnly := kv rest "tokonly" == some "1", leafAll := kv rest "leaf" == some "1", dname := kv rest "dname" == some "1" }
-      match resolve s.env s.srcs.reverse with
+      match resolveGate s.gate s.env s.srcs.reverse with
       | .error es =>
         let names := es.map showErr
         let pick := if names.contains hint then hint else names.headD "?"
@@ -535,7 +539,166 @@ def handler : Handler St where
             | some d => [s!"prop dollarname=FAIL {d}"]
             | none => ["prop dollarname=ok"])
 
+/-! ## `c12-life`: `NewResolver` (locations) and the `closers` bookkeeping -/
+
+structure LSt where
+  uris : List Str := []
+  provs : List Str := []
+  dflt : Str := []
+  locs : Option (List Loc) := none            -- the model's locations
+  implLocs : Option (List Loc) := none        -- `obs ctor ok …` of the implementation
+  implRetrieved : Option (List Str) := none
+  implRetrievedOk : Bool := false
+  life : Life := {}
+  failIds : List Nat := []
+  implCloses : List (List Nat) := []          -- per op, the `Close` calls the implementation made
+  implNs : List Nat := []                     -- per op, the successful `Retrieve` calls
+  shutdownLast : Bool := false
+  bad : Option String := none
+
+def hexOpt (t : String) : Option Str := if t = "-" then some [] else unhexStr t.toList
+
+def showCtorErr : CtorErr → String
+  | .noURIs => "no-uris"
+  | .noProviders => "no-providers"
+  | .invalidProviderScheme => "invalid-provider-scheme"
+  | .duplicateScheme => "duplicate-scheme"
+  | .defaultNotFound => "default-not-found"
+  | .invalidURI => "invalid-uri"
+  | .unsupportedScheme => "unsupported-scheme"
+
+def hexOrDash (s : Str) : String := if s.isEmpty then "-" else hexStr s
+
+def showLoc (l : Loc) : String := s!"{hexOrDash l.scheme}/{hexOrDash l.opq}"
+
+def parseLoc (t : String) : Option Loc :=
+  match t.splitOn "/" with
+  | [a, b] =>
+    match hexOpt a, hexOpt b with
+    | some a, some b => some ⟨a, b⟩
+    | _, _ => none
+  | _ => none
+
+def parseIds (t : String) : Option (List Nat) :=
+  if t = "-" then some [] else (t.splitOn ",").mapM String.toNat?
+
+def showIds (l : List Nat) : String := if l.isEmpty then "-" else ",".intercalate (l.map toString)
+
+/-- the statements of `C12_location_verbatim` / `C12_location_file` evaluated on the implementation's locations -/
+def checkLocs (s : LSt) : Option String :=
+  match s.implLocs with
+  | none => none
+  | some ls =>
+    if ls.length != s.uris.length then some s!"sig=C12/location/uri-list-not-kept-as-given uris={s.uris.length} locations={ls.length}" else
+    (s.uris.zip ls).findSome? (fun (u, l) =>
+      if driverLetter u || !hasColon u then
+        (if l.scheme == OtelVerif.Gen.C12Consts.fileScheme && l.opq == u then none
+         else some s!"sig=C12/location/file-fallback-wrong uri={hexStr u} got={showLoc l}")
+      else if l.asString != u then some s!"sig=C12/location/uri-not-passed-verbatim uri={hexStr u} got={hexStr l.asString}"
+      else if !validScheme l.scheme || !s.provs.contains l.scheme then
+        some s!"sig=C12/location/scheme-not-valid-or-not-registered uri={hexStr u} scheme={hexStr l.scheme}"
+      else none)
+
+/-- `C12_retrieveAll_in_order` on the implementation: what the providers were asked for is the locations' text, in order -/
+def checkRetrieveOrder (s : LSt) : Option String :=
+  match s.implLocs, s.implRetrieved with
+  | some ls, some got =>
+    let want := (retrieveAll s.provs ls).1
+    if got == want then none
+    else some s!"sig=C12/location/retrieved-not-the-uri-list-in-order want={" ".intercalate (want.map hexStr)} got={" ".intercalate (got.map hexStr)}"
+  | _, _ => none
+
+/-- `C12_closers_exactly_once` / `C12_closers_after_shutdown` on the implementation's `Close` calls -/
+def checkCloses (s : LSt) : Option String :=
+  let rec go (closes : List (List Nat)) (ns : List Nat) (issued : Nat) (seen : List Nat) : Option String :=
+    match closes, ns with
+    | c :: cs, n :: ns' =>
+      match c.find? (fun i => seen.contains i) with
+      | some i => some s!"sig=C12/closers/close-called-twice id={i}"
+      | none =>
+        if !c.eraseDups.length == c.length then some "sig=C12/closers/close-called-twice in-one-call"
+        else match c.find? (fun i => i ≥ issued) with
+          | some i => some s!"sig=C12/closers/closed-before-retrieved id={i}"
+          | none =>
+            -- everything issued before this call must be closed by the end of its closeIfNeeded
+            match (List.range issued).find? (fun i => !(seen ++ c).contains i) with
+            | some i => some s!"sig=C12/closers/close-never-called id={i}"
+            | none => go cs ns' (issued + n) (seen ++ c)
+    | _, _ => none
+  go s.implCloses s.implNs 0 []
+
+def lifeHandler : Handler LSt where
+  init := {}
+  onOp := fun s toks =>
+    match toks with
+    | ["uri", u] => (match hexOpt u with | some u => ({ s with uris := s.uris ++ [u] }, []) | none => (s, ["obs bad-op"]))
+    | ["prov", p] => (match hexOpt p with | some p => ({ s with provs := s.provs ++ [p] }, []) | none => (s, ["obs bad-op"]))
+    | ["default", d] => (match hexOpt d with | some d => ({ s with dflt := d }, []) | none => (s, ["obs bad-op"]))
+    | ["new"] =>
+      match newResolver ⟨s.uris, s.provs, s.dflt⟩ with
+      | .error e => (s, [s!"obs ctor err {showCtorErr e}"])
+      | .ok ls => ({ s with locs := some ls }, [" ".intercalate ("obs ctor ok" :: ls.map showLoc)])
+    | ["retrieve"] =>
+      match s.locs with
+      | none => (s, ["obs bad-op"])
+      | some ls =>
+        let r := retrieveAll s.provs ls
+        (s, [" ".intercalate (["obs retrieved", if r.2 then "ok" else "err"] ++ r.1.map hexOrDash)])
+    | "resolveall" :: rest =>
+      -- `NewResolver` + `Resolve` from the settings; what a top-level provider returns is a fixed function of the location text
+      let gate := kv rest "gate" == some "1"
+      let fetch : Str → Option Val := fun u =>
+        let h := (hexOrDash u).toList
+        some (.map (.cons ['l', 'a', 's', 't'] (.str h) (.cons ('u' :: h.take 2) (.str h)
+          (.cons ['l'] (.list (.cons (.str (h.take 1)) .nil)) .nil))))
+      match resolveSettings gate ⟨s.uris, s.provs, s.dflt⟩ fetch { prov := fun _ _ => none } with
+      | .ok m => (s, [s!"obs conf {showVal (sanitize false (.map m))}"])
+      | .error (.ctor e) => (s, [s!"obs conf err ctor-{showCtorErr e}"])
+      | .error .cannotRetrieve => (s, ["obs conf err cannot-retrieve"])
+      | .error (.resolve _) => (s, ["obs conf err resolve"])
+    | "life" :: what :: rest =>
+      match (kv rest "fail").bind parseIds with
+      | none => (s, ["obs bad-op"])
+      | some fail =>
+        let s := { s with failIds := fail }
+        let cf := s.life.pending.any (fun i => fail.contains i)
+        if what == "resolve" then
+          match kvNat rest "n" with
+          | none => (s, ["obs bad-op"])
+          | some n =>
+            let l' := s.life.fire (.resolve cf n)
+            ({ s with life := l', implNs := s.implNs ++ [n], shutdownLast := false },
+             [s!"obs life closes={showIds s.life.pending} pending={l'.pending.length} closeerr={if cf then 1 else 0}"])
+        else if what == "shutdown" then
+          let l' := s.life.fire .shutdown
+          ({ s with life := l', implNs := s.implNs ++ [0], shutdownLast := true },
+           [s!"obs life closes={showIds s.life.pending} pending={l'.pending.length} closeerr={if cf then 1 else 0}"])
+        else (s, ["obs bad-op"])
+    | _ => (s, ["obs bad-op"])
+  onObs := fun s toks =>
+    match toks with
+    | _ :: "ctor" :: "ok" :: ls =>
+      match ls.mapM parseLoc with
+      | some ls => { s with implLocs := some ls }
+      | none => { s with bad := some "unparsable ctor" }
+    | _ :: "retrieved" :: ok :: us =>
+      match us.mapM hexOpt with
+      | some us => { s with implRetrieved := some us, implRetrievedOk := ok == "ok" }
+      | none => { s with bad := some "unparsable retrieved" }
+    | _ :: "life" :: rest =>
+      match (kv rest "closes").bind parseIds with
+      | some c => { s with implCloses := s.implCloses ++ [c] }
+      | none => { s with bad := some "unparsable closes" }
+    | _ => s
+  onEnd := fun s =>
+    match s.bad with
+    | some b => [s!"prop locations=FAIL sig=C12/harness/unparsable {b}"]
+    | none =>
+      [match checkLocs s with | some d => s!"prop locations=FAIL {d}" | none => "prop locations=ok",
+       match checkRetrieveOrder s with | some d => s!"prop retrieveorder=FAIL {d}" | none => "prop retrieveorder=ok",
+       match checkCloses s with | some d => s!"prop closers=FAIL {d}" | none => "prop closers=ok"]
+
 end OtelVerif.Drivers.C12
 
 def main : IO UInt32 :=
-  runMulti [("c12-resolve", run OtelVerif.Drivers.C12.handler)]
+  runMulti [("c12-resolve", run OtelVerif.Drivers.C12.handler), ("c12-life", run OtelVerif.Drivers.C12.lifeHandler)]
